@@ -199,6 +199,85 @@ def Indexed.toSparse (s : Indexed) : Indexed :=
   | .denseI32 _ | .denseF64 _ | .denseElement _ => .sparseElement s.denseValues
   | s => s
 
+
+/-! ### fast paths that bypass `get / insert / remove` and touch the dense vectors directly -/
+
+/-- `PropertyMap::get_dense_property` — the VM's fast path for `a[i]` (vm/opcode/get/property.rs); `none` = take the generic path -/
+def Indexed.getDense (s : Indexed) (k : Nat) : Option Val :=
+  match s with
+  | .denseI32 v => (v[k]?).map Val.i32
+  | .denseF64 v => (v[k]?).map Val.f64
+  | .denseElement v => v[k]?
+  | _ => none
+
+/-- `PropertyMap::set_dense_property` — the VM's fast path for `a[i] = v` (vm/opcode/set/property.rs);
+    `none` = not handled (index outside the vector, or sparse storage): the generic [[Set]] runs -/
+def Indexed.setDense (s : Indexed) (k : Nat) (value : Val) : Option Indexed :=
+  match s with
+  | .denseI32 v =>
+    if k < v.length then
+      match value with
+      | .i32 i => some (.denseI32 (v.set k i))
+      | .f64 (.int i) => some (.denseI32 (v.set k i))        -- `is_rational_integer`: same bits after a round trip through i32
+      | .f64 n => some (.denseF64 ((v.map Num.int).set k n))
+      | .other _ => some (.denseElement ((v.map Val.i32).set k value))
+    else none
+  | .denseF64 v =>
+    if k < v.length then
+      match value.asNumber with
+      | some n => some (.denseF64 (v.set k n))
+      | none => some (.denseElement ((v.map Val.f64).set k value))
+    else none
+  | .denseElement v => if k < v.length then some (.denseElement (v.set k value)) else none
+  | _ => none
+
+/-- the dense fast path of `Array.prototype.shift` (builtins/array/mod.rs): `dense.remove(0)` when `1 ≤ len ≤ dense.len()`;
+    the caller then sets `length` to `len - 1`. `none` = the generic algorithm runs -/
+def Indexed.shiftDense (s : Indexed) (len : Nat) : Option (Val × Indexed) :=
+  match s with
+  | .denseI32 (x :: v) => if 1 ≤ len ∧ len ≤ v.length + 1 then some (.i32 x, .denseI32 v) else none
+  | .denseF64 (x :: v) => if 1 ≤ len ∧ len ≤ v.length + 1 then some (.f64 x, .denseF64 v) else none
+  | .denseElement (x :: v) => if 1 ≤ len ∧ len ≤ v.length + 1 then some (x, .denseElement v) else none
+  | _ => none
+
+/-- one round of step 6 of `Array.prototype.shift` with k = i + 1: move the element at k to k - 1, or delete k - 1 when k is a hole -/
+def Indexed.shiftStep (acc : Indexed) (i : Nat) : Indexed :=
+  match acc.get (i + 1) with
+  | some d => (acc.insert i (plain d.value)).1
+  | none => (acc.remove i).1
+
+/-- `Array.prototype.shift` steps 4–7 as written (the generic algorithm), over the storage API, for an array whose
+    elements are plain data properties: Get/HasProperty → `get`, Set → `insert` of a plain value, DeletePropertyOrThrow → `remove` -/
+def Indexed.shiftGeneric (s : Indexed) (len : Nat) : Option Sem × Indexed :=
+  let first := (s.get 0).map (fun d => d.value.sem)
+  let s1 := (List.range (len - 1)).foldl Indexed.shiftStep s
+  (first, (s1.remove (len - 1)).1)
+
+/-! ### an ordinary array at the JavaScript level: storage + `length`, every element a plain data property -/
+
+structure JsArr where
+  st : Indexed := .denseI32 []
+  len : Nat := 0
+
+/-- `a[k] = v` (SetPropertyByValue): the VM's dense fast path, else [[Set]] → array [[DefineOwnProperty]] (insert; `length` grows) -/
+def jsSet (a : JsArr) (k : Nat) (v : Val) : JsArr :=
+  match a.st.setDense k v with
+  | some s' => { a with st := s' }
+  | none => { st := (a.st.insert k (plain v)).1, len := max a.len (k + 1) }
+
+/-- `a[k]` (GetPropertyByValue): the VM's dense fast path, else the generic [[Get]] -/
+def jsGet (a : JsArr) (k : Nat) : Option Sem :=
+  match a.st.getDense k with
+  | some v => some v.sem
+  | none => (a.st.get k).map (fun d => d.value.sem)
+
+/-- `a.shift()`: the dense fast path when it applies, else the generic algorithm; then `length = len - 1` -/
+def jsShift (a : JsArr) : Option Sem × JsArr :=
+  if a.len == 0 then (none, a)
+  else match a.st.shiftDense a.len with
+    | some (v, s') => (some v.sem, { st := s', len := a.len - 1 })
+    | none => ((a.st.shiftGeneric a.len).1, { st := (a.st.shiftGeneric a.len).2, len := a.len - 1 })
+
 /-- index keys as the storage iterates them (hash-map order for the sparse variants) -/
 def Indexed.keys (s : Indexed) : List Nat := s.allDescs.map (·.1)
 
